@@ -111,7 +111,8 @@ Section WithVariants.
   Inductive sout :=
   | OMod (o : out)
   | OFlush (st : fstatus)
-  | OGet (res : option (list gentry)).
+  | OGet (res : option (list gentry))
+  | OAny.   (* an observation that is not compared (a Get that was cut off part-way) *)
 
   Definition sstep (s : ssrv) (i : sinput) : ssrv * sout :=
     match i with
@@ -162,6 +163,7 @@ Definition sout_eqb (a b : sout) : bool :=
   | OFlush x, OFlush y => fstatus_eqb x y
   | OGet None, OGet None => true
   | OGet (Some x), OGet (Some y) => Run.list_eqb gentry_eqb (gsort x) (gsort y)
+  | _, OAny => true
   | _, _ => false
   end.
 
